@@ -1421,6 +1421,9 @@ func applyFault(p *sched.Pipe, f *faultSpec, base int64) {
 		p.CutErr = sched.ErrInjected
 	case "corrupt":
 		p.FlipAt = base + f.At
+	case "bitflip":
+		p.FlipAt = base + f.At
+		p.FlipMask = 0x01
 	}
 }
 
@@ -1448,6 +1451,10 @@ func independentDecode(frames [][]byte, f *faultSpec, version int64) []string {
 			case "corrupt":
 				if f.At >= start && f.At < end {
 					b[f.At-start] ^= 0xff
+				}
+			case "bitflip":
+				if f.At >= start && f.At < end {
+					b[f.At-start] ^= 0x01
 				}
 			}
 		}
@@ -1477,7 +1484,16 @@ func handle(raw json.RawMessage) any {
 	if err := json.Unmarshal(raw, &sc); err != nil {
 		return map[string]any{"harness_error": err.Error()}
 	}
-	return runScenario(sc)
+	res := runScenario(sc)
+	// goroutines of the SDK that outlive the session (a server waiting out its 60 s send timeout, a stuck
+	// caller) would call the next session's hook: give them a moment, then ask for a fresh process
+	for i := 0; i < 20 && len(sched.BlockedSDK()) > 0; i++ {
+		time.Sleep(200 * time.Microsecond)
+	}
+	if len(sched.BlockedSDK()) > 0 {
+		sup.RequestRestart()
+	}
+	return res
 }
 
 func main() { sup.Main(handle) }
